@@ -177,7 +177,7 @@ def run_values_plus(pid, tier, seed):
         g = vlib.run_gen(vh, "hist", tier, seed, only="rdr,buf")
         tm = ("TraceHist.tla", "TraceHist.cfg")
     else:
-        g = vlib.run_gen(vh, "trees", tier, seed, only="shapes,random,corpus")
+        g = vlib.run_gen(vh, "trees", tier, seed, only="shapes,random,corpus,depth")
         tm = ("TraceTrees.tla", "TraceTrees.cfg")
     res["gens"].append(g)
     if "hang" in g:
@@ -527,7 +527,7 @@ CHECKS.update({
             "level_note": "sampled shapes of (len, cap, contents); aliasing destinations are outside the quantifier; value trees are covered by the C15/C03 events"},
     "C17": {"family": "values_plus", "level": "model_checking",
             "rule": "all 1- and 2-byte sequences (65792, exhaustive), all 3-byte (thorough: and 4-byte) sequences over the 28 UTF-8 boundary "
-                    "bytes, random longer sequences, damaged valid strings; StdLibCompatibleStringBytes with destination shapes",
+                    "bytes, random longer sequences, damaged valid strings; long inputs with runes across every offset around the powers of two; StdLibCompatibleStringBytes with destination shapes; decoded trees through the slice/map helpers, including values nested 9999 / 10000 deep with invalid UTF-8 at the bottom and in the keys on the way down",
             "technique": "TLA+ Utf8Sanitize (Unicode table 3-7; R1: idempotent, identity on valid) + TLC validation of recorded helper outputs (R3)",
             "level_text": "Utf8Sanitize is defined from the Unicode well-formedness table and model-checked for idempotence and identity on "
                           "valid input over all boundary-byte sequences <= 4; recorded outputs of the helpers are compared byte for byte.",
